@@ -1306,6 +1306,18 @@ class Homog(Degree):
             v = self.eval(node.args[0], env)
             self.captured.setdefault(unparse(node.func.value), []).append(v)
             return CONST
+        if isinstance(node.func, ast.Name) and getattr(self, "depth", 0) < 2 and not node.keywords:
+            # a module-level helper of the repository (e.g. imported from fec/utils): its body is analysed on the degrees
+            # of the arguments, so that a saturating operation hidden in a helper is seen
+            callee = self.repo.resolve_name(self.fi.module, node.func.id)
+            if isinstance(callee, FuncInfo) and callee.cls is None and len(node.args) <= len(callee.params):
+                sub = Homog(callee, self.repo, allowed_clamp=self.allowed_clamp, depth=getattr(self, "depth", 0) + 1)
+                sub.run({p_: self.eval(a_, env) for p_, a_ in zip(callee.params, node.args)})
+                self.bad += [(node, f"via {callee.name}: {why}") for _nd, why in sub.bad]
+                vals = [v for v, _r, _e in sub.returns if isinstance(v, DV)]
+                if vals and all(v == vals[0] for v in vals):
+                    return vals[0]
+                return UNK if sub.returns else CONST
         return super().eval_Call(node, env)
 
     def eval_BinOp(self, node, env):
@@ -1360,6 +1372,34 @@ def rule_scale(repo: Repo, rep: Report) -> int:
             rep.undecided("SCALE", fi, "check-to-variable messages", "degree not derived (" + "; ".join(it.notes[:2]) + ")")
         else:
             rep.violation("SCALE", fi, "check-to-variable messages", "degree " + ", ".join(v.show() for v in outs) + " in the input: rescaling the LLRs changes the decisions")
+    # belief propagation / min-sum (inherited): from the posterior to the decided bits the path must be exact for every
+    # positive magnitude - comparisons, sign, index selection; a decision through sigmoid / round / clamp saturates in
+    # float32 (round(sigmoid(-1e-8)) is 0: a weak negative posterior is decided as bit 0)
+    fwd = repo.method(bp, "forward")
+    db = fwd.nested("decode_block")
+    if db is not None:
+        loops_ = [i for i, st_ in enumerate(db.body) if isinstance(st_, (ast.For, ast.While))]
+        tail = db.body[loops_[-1] + 1:] if loops_ else []
+        if tail:
+            bound, free = set(), []
+            for st_ in tail:
+                for x_ in ast.walk(st_):
+                    if isinstance(x_, ast.Name) and isinstance(x_.ctx, ast.Load) and x_.id not in bound and x_.id not in free and x_.id not in ("torch", "self", "sign_to_bin", "llr_to_bits", "F", "math"):
+                        free.append(x_.id)
+                for x_ in ast.walk(st_):
+                    if isinstance(x_, ast.Name) and isinstance(x_.ctx, ast.Store):
+                        bound.add(x_.id)
+            sizes = {e.id for st_ in db.body[: (loops_[-1] if loops_ else 0)] for t_ in (st_.targets if isinstance(st_, ast.Assign) else []) if isinstance(st_.value, ast.Call) and isinstance(st_.value.func, ast.Attribute) and st_.value.func.attr in ("size",) or isinstance(getattr(st_, "value", None), ast.Attribute) and getattr(st_.value, "attr", "") == "shape" for e in ast.walk(t_) if isinstance(e, ast.Name)}
+            fake = ast.FunctionDef(name="decode_block_decision", args=ast.arguments(posonlyargs=[], args=[ast.arg(arg=a_) for a_ in free], kwonlyargs=[], kw_defaults=[], defaults=[]), body=tail, decorator_list=[], returns=None, type_comment=None)
+            ast.copy_location(fake, tail[0])
+            ast.fix_missing_locations(fake)
+            fi_tail = FuncInfo(module=fwd.module, node=fake, cls=bp)
+            ib = Homog(fi_tail, repo, cls=bp, allowed_clamp=None)
+            ib.run({a_: (CONST if a_ in sizes else L1) for a_ in free})
+            for node, why in ib.bad:
+                rep.violation("SCALE", db, node, why + "; the decision of the belief-propagation / min-sum decoders must depend on the sign of the posterior only (clean input of any positive magnitude decodes clean; min-sum decisions are invariant to positive rescaling)", node=node)
+            rep.add("SCALE", db, "posterior reaches the bit decision unsaturated", OK if not ib.bad else VIOLATION, "sign / comparison / selection only between the last iteration and the decided bits" if not ib.bad else "see above")
+            n += 1
     # Wagner: the comparison with 0 and the argmin of |.| see the raw input
     wc = repo.cls(WG, "WagnerSoftDecisionDecoder")
     wf = repo.method(wc, "forward")
